@@ -360,7 +360,8 @@ class SccCaptionParagraph:
 
           if self.get_caption_style() is SccCaptionStyle.PaintOn:
             # Compute paragraph-relative begin time
-            begin -= self._begin.to_temporal_offset()
+            # (time codes that run backwards must not yield a negative offset)
+            begin = max(begin - self._begin.to_temporal_offset(), 0)
 
           span.set_begin(begin)
 
